@@ -119,3 +119,34 @@ Fixpoint t_run (c : lcache) (steps : list tstep) : res (list iterobs) :=
 (* a history of the C11 model (fixed searches, nothing stopped) as a timed history *)
 Definition tstep_of (cfg : simcfg) (s : simstep) : tstep :=
   mkTStep (ss_now s) (ss_nsb s) (ss_nsh s) (ss_recs s) cfg None.
+
+(* ---- stopping a browse (C13: the records cached for the stopped browse are forgotten) ---- *)
+
+(* what remove_service_type removes: the instances the PTR records under the type name, the
+   (lower-cased) hosts their SRV records name *)
+Definition stop_instances (ty : bytes) (c : lcache) : list bytes :=
+  flat_map (fun e : lentry => match alias_of (c_id e) with Some a => [a] | None => [] end)
+           (get_bucket lrec c (0, ty)).
+Definition stop_hosts (ty : bytes) (c : lcache) : list bytes :=
+  map lower (flat_map (fun i => hosts_of_bucket lrec (get_bucket lrec c (1, i))) (stop_instances ty c)).
+(* the cache once the PTR Vec and the SRV / TXT Vecs of those instances are gone: an address Vec
+   is removed iff no SRV record that is left names its host *)
+Definition stop_core (ty : bytes) (c : lcache) : lcache :=
+  set_bucket lrec
+    (fold_left (fun c i => set_bucket lrec (set_bucket lrec c (1, i) []) (2, i) []) (stop_instances ty c) c)
+    (0, ty) [].
+Definition removed_key (ty : bytes) (c : lcache) (k : ckey) : bool :=
+  key_eqb k (0, ty)
+  || existsb (fun i => key_eqb k (1, i) || key_eqb k (2, i)) (stop_instances ty c)
+  || existsb (fun h => key_eqb k (3, h) && negb (names_host lrec h (stop_core ty c))) (stop_hosts ty c).
+
+(* the cache after the records of an iteration have been taken in (before its commands) *)
+Definition after_ingest (s : tstep) (c : lcache) : res lcache :=
+  ingest lrec log_ops (pop_cache (ts_now s) c) (ts_now s) (ts_recs s).
+
+(* several iterations in a row *)
+Inductive truns : lcache -> N -> list tstep -> lcache -> N -> Prop :=
+| truns_nil : forall c n, truns c n [] c n
+| truns_cons : forall c n s c1 o steps c' n',
+    tstep_ok n s -> t_iter s c = Ok (c1, o) -> truns c1 (ts_now s) steps c' n' ->
+    truns c n (s :: steps) c' n'.
